@@ -8,10 +8,10 @@
 EXTENDS Integers, FiniteSets, Sequences, TLC, Json
 CONSTANTS MaxFeatures
 Features == {"DISGAS", "VAPOIL", "PVTO", "PVTG", "FAMILY2", "POLYMER", "PLYSHLOG", "PLYVISC", "FAULTS", "MULTFLT", "NNC", "MULTREGT",
-             "THPRES", "RSVD", "TRACER", "ROCKTAB", "SATNUM", "PVTNUM", "WELLS", "GROUPS", "UDQ", "ACTIONX", "WTEST", "MSW", "MSWBR", "VFP", "GINJ", "SUMMARY_ALL", "RPT"}
+             "THPRES", "RSVD", "TRACER", "ROCKTAB", "SATNUM", "PVTNUM", "WELLS", "GROUPS", "UDQ", "ACTIONX", "WTEST", "MSW", "MSWBR", "VFP", "GINJ", "SUMMARY_ALL", "RPT", "WECON"}
 Requires(f) == CASE f = "PVTO" -> {"DISGAS"} [] f = "PVTG" -> {"VAPOIL"} [] f = "RSVD" -> {"DISGAS", "PVTO"}
                  [] f = "PLYSHLOG" -> {"POLYMER"} [] f = "PLYVISC" -> {"POLYMER"} [] f = "MULTFLT" -> {"FAULTS"}
-                 [] f \in {"GROUPS", "UDQ", "ACTIONX", "WTEST", "MSW", "VFP", "GINJ"} -> {"WELLS"}
+                 [] f \in {"GROUPS", "UDQ", "ACTIONX", "WTEST", "MSW", "VFP", "GINJ", "WECON"} -> {"WELLS"}
                  [] f = "MSWBR" -> {"WELLS", "MSW"}       \* a lateral numbered below the continuation of the main stem
                  [] OTHER -> {}
 VARIABLES ntpvt, ntsfun, neql, unit, fs
